@@ -156,7 +156,7 @@ class Check:
                 json.dump(part, f)
             cfg = "CONSTANT Active = {%s}\n%sINIT Init\nNEXT Next\n" % (
                 ", ".join('"%s"' % a for a in sorted(active)), extra_consts)
-            r = tlc.run(module, cfg, env={"TRACE_FILE": tf}, timeout=timeout or max(120, self.time_left() + 900))
+            r = tlc.run(module, cfg, env={"TRACE_FILE": tf}, timeout=timeout or max(1800, self.time_left() + 1800))
             if not r.ok:
                 tail = "\n".join(r.stdout.split("\n")[-30:])
                 raise Machinery("judge %s did not complete (rc=%s)\n%s" % (module, r.rc, tail))
